@@ -716,6 +716,8 @@ class AsyncServer(base_server.BaseServer):
             await self._handle_disconnect(eio_sid, n, reason)
         if eio_sid in self.environ:
             del self.environ[eio_sid]
+        if eio_sid in self._binary_packet:
+            del self._binary_packet[eio_sid]
 
     def _engineio_server_class(self):
         return engineio.AsyncServer
